@@ -203,6 +203,7 @@ async def _run(case, obs):
             await asyncio.sleep(0.5)
             obs["wires"] = [(bytes(c.log), bytes(t.log)) for c, t in conn.pairs]
             obs["pauses"] = [(getattr(c, "pauses", 0), getattr(t, "pauses", 0)) for c, t in conn.pairs]
+            obs["pause_at"] = [(list(getattr(c, "pause_at", [])), list(getattr(t, "pause_at", []))) for c, t in conn.pairs]
             obs["undelivered"] = [(len(c.buf), len(t.buf)) for c, t in conn.pairs]
     finally:
         await runner.cleanup()
@@ -216,6 +217,43 @@ def run_case(case):
     _, excs, quiescent = vloop.run(main)
     obs["quiescent"] = quiescent
     return obs
+
+
+def pause_position(case, obs):
+    """where, relative to the HTTP chunks on the wire, the stream stood when the reader last asked for a
+    pause: 'pause-mid-chunk' (a chunk's data partly delivered) or 'pause-at-chunk-boundary'"""
+    down = case.get("dir", "down") == "down"
+    try:
+        wire = obs["wires"][0][1 if down else 0]
+        at = obs["pause_at"][0][0 if down else 1]
+    except (KeyError, IndexError):
+        return "no-pause"
+    if not at:
+        return "no-pause"
+    pos = at[-1]
+    j = wire.find(b"\r\n\r\n")
+    if j < 0:
+        return "pause-in-head"
+    i = j + 4
+    if pos <= i:
+        return "pause-in-head"
+    while i < len(wire):
+        k = wire.find(b"\r\n", i)
+        if k < 0:
+            break
+        try:
+            size = int(wire[i:k], 16)
+        except ValueError:
+            break
+        d0, d1 = k + 2, k + 2 + size          # data occupies [d0, d1)
+        if size and d0 < pos < d1:
+            return "pause-mid-chunk"
+        if pos <= d1 + 2:
+            return "pause-at-chunk-boundary"
+        if size == 0:
+            break
+        i = d1 + 2
+    return "pause-at-chunk-boundary"
 
 
 def oracle(ctx, case, obs):
@@ -236,7 +274,7 @@ def oracle(ctx, case, obs):
                 return
             if obs.get("quiescent") or not cli.get("complete"):
                 if healthy or obs.get("quiescent"):
-                    V(f"body-never-completes/response-{fr}",
+                    V(f"body-never-completes/response-{fr}" + ("/" + pause_position(case, obs) if fr == "chunked" else ""),
                       f"caller received {len(got)} of {n} bytes (read_bufsize={case.get('bufsize')}, segments {case.get('seg')}), then "
                       f"{'the read hung (nothing left to run)' if obs.get('quiescent') else 'got ' + str(cli.get('exc'))}; "
                       f"undelivered on the wire: {obs.get('undelivered')}")
@@ -246,7 +284,7 @@ def oracle(ctx, case, obs):
         else:
             got = bytes(srv.get("got", b""))
             if obs.get("quiescent") or not srv.get("complete"):
-                V(f"body-never-completes/request-{fr}",
+                V(f"body-never-completes/request-{fr}" + ("/" + pause_position(case, obs) if fr == "chunked" else ""),
                   f"handler received {len(got)} of {n} bytes (read_bufsize={case.get('bufsize')}, segments {case.get('seg')}), then "
                   f"{'the read hung' if obs.get('quiescent') else 'raised ' + str(srv.get('read_exc'))}; client: {cli.get('exc') or cli.get('status')}")
                 return
@@ -293,9 +331,25 @@ def targeted_flow(direction, buf, framing, tail, reader):
             "seg": ["bodycuts", [H - 40, H + H // 2]], "reader": reader}
 
 
+def boundary_flow(direction, buf, where):
+    """two writes = two HTTP chunks; the first read ends exactly at the end of the first chunk
+    (`where` = 'data' after its data, 'crlf' after its CRLF, 'size' inside the next size line) having pushed
+    the reader above the high-water mark H; the consumer then drains; the rest comes in one read"""
+    H = 2 * buf
+    a = H + 10
+    frame = len("%x" % a) + 2 + a
+    cut = {"data": frame, "crlf": frame + 2, "size": frame + 3}[where]
+    return {"kind": "flow", "dir": direction, "bufsize": buf, "framing": "chunked", "n": a + 300, "writes": [a, 300],
+            "seg": ["bodycuts", [cut]], "reader": {"mode": "readany", "first_sleep": 1.0}}
+
+
 def gen_cases(ctx):
     rng = ctx.rng
     out = []
+    for direction in ("down", "up"):
+        for buf in (BUFS if not ctx.quick else BUFS[:2]):
+            for where in ("data", "crlf", "size"):
+                out.append(boundary_flow(direction, buf, where))
     # --- flow control, targeted (pause in the middle of a chunk, remainder in one read)
     for direction in ("down", "up"):
         for buf in BUFS:
@@ -353,8 +407,8 @@ def gen_cases(ctx):
     return out
 
 
-def check(ctx, stop):
-    cases = gen_cases(ctx)
+def check(ctx, stop, extra=()):
+    cases = list(extra) + gen_cases(ctx)
     done = []
     for i, case in enumerate(cases):
         if stop():
